@@ -4,6 +4,8 @@
   seen by every live node, a late joiner has everything.
     case <id> n=<k>
     sil|nfl <node> <small|big> -> seen=<c>/<n>
+    burst <node> <k>            -> seen=<c>/<n>      k small silences + k small log entries created back-to-back on one node;
+                                                     c = nodes holding all of them within the settle time
     join                        -> has=<m>/<m> members=<k>
     rejoin <node>               -> has=<m>/<m> members=<k>     crash without leave + a new instance on the same address
 -/
@@ -22,6 +24,11 @@ def frac (s : String) : Nat × Nat :=
 
 def step (σ : St) (op obs : List String) : St × List Msg :=
   match op, obs with
+  | ["burst", _node, k], [seen] =>
+    let (c, n) := frac ((kv [seen] "seen").getD "0/1")
+    let pf := if c ≠ n then
+      [Msg.propfail "broadcast_routed_once" "update-lost" s!"burst of {k} small silence and {k} small log updates: all of them merged by {c} of {n} nodes only"] else []
+    (σ, expectEq "seen.n" (toString σ.n) (toString n) ++ pf ++ [.tag "burst"])
   | [kind, _node, size], [seen] =>
     let (c, n) := frac ((kv [seen] "seen").getD "0/1")
     let pf := if c ≠ n then
